@@ -44,6 +44,7 @@ def run(chk):
     chk.require(mu is not None, "json_util.c not in the build")
     with chk.shared():
         c20.r2(chk, prog, mu)
+        c20._confirm_shape_rules(chk, prog, mu, only=("C20.R2",))
     from . import c06
     with chk.shared():
         c06.r2(chk, prog)           # duplicate member names: the last value wins and the member keeps its first position (shared with C06)
